@@ -17,7 +17,10 @@
 #include "node.h"
 #include "N2kDeviceList.h"
 #include <unistd.h>
+#if defined(__SANITIZE_ADDRESS__)
 #include <sanitizer/asan_interface.h>
+#define VH_ASAN 1
+#endif
 
 using namespace vh;
 static Ctx C;
@@ -32,22 +35,20 @@ struct DL : public tN2kDeviceList {
     if (!p) return "null"; if (!*p) return "-";
     std::string r; for (; *p; p++) { if (!r.empty()) r += ','; r += std::to_string(*p); } return r;
   }
-  static std::string dump(const tInternalDevice *d) {
+  // Everything is read through the PUBLIC interface: the `const tNMEA2000::tDevice *` returned by the public Find* methods and
+  // its virtual getters. Only the two loaded flags (no public getter on tDevice) are peeked from the internal class, as extras.
+  std::string dump(const tNMEA2000::tDevice *d) const {
     if (!d) return "-";
-    char b[128]; std::string r;
-    snprintf(b, sizeof b, "s=%u n=%016llx ct=%lu pl=%d v=%u c=%u", d->GetSource(), (unsigned long long)d->GetName(), d->GetCreateTime(),
-             d->HasProductInformation() ? 1 : 0, d->GetN2kVersion(), d->GetProductCode()); r = b;
+    char b[160]; std::string r;
+    const tInternalDevice *in = static_cast<const tInternalDevice *>(d);
+    snprintf(b, sizeof b, "s=%u n=%016llx mc=%u un=%lu ct=%lu pl=%d v=%u c=%u", d->GetSource(), (unsigned long long)d->GetName(), (unsigned)d->GetManufacturerCode(),
+             (unsigned long)d->GetUniqueNumber(), d->GetCreateTime(), in->HasProductInformation() ? 1 : 0, d->GetN2kVersion(), d->GetProductCode()); r = b;
     r += " id=" + str(d->GetModelID()) + " sw=" + str(d->GetSwCode()) + " mv=" + str(d->GetModelVersion()) + " sn=" + str(d->GetModelSerialCode());
-    snprintf(b, sizeof b, " cl=%u le=%u cf=%d", d->GetCertificationLevel(), d->GetLoadEquivalency(), d->HasConfigurationInformation() ? 1 : 0); r += b;
-    const tNMEA2000::tDevice *c = d;
-    r += " man=" + str(c->GetManufacturerInformation()) + " i1=" + str(c->GetInstallationDescription1()) + " i2=" + str(c->GetInstallationDescription2());
-    r += " tx=" + lst(c->GetTransmitPGNs()) + " rx=" + lst(c->GetReceivePGNs());
+    snprintf(b, sizeof b, " cl=%u le=%u cf=%d", d->GetCertificationLevel(), d->GetLoadEquivalency(), in->HasConfigurationInformation() ? 1 : 0); r += b;
+    r += " man=" + str(d->GetManufacturerInformation()) + " i1=" + str(d->GetInstallationDescription1()) + " i2=" + str(d->GetInstallationDescription2());
+    r += " tx=" + lst(d->GetTransmitPGNs()) + " rx=" + lst(d->GetReceivePGNs());
     return r;
   }
-  std::string dumpBySrc(uint8_t a) const { return dump(LocalFindDeviceBySource(a)); }
-  std::string dumpByName(uint64_t n) const { return dump(LocalFindDeviceByName(n)); }
-  std::string dumpByIDs(uint16_t m, uint32_t u) const { return dump(LocalFindDeviceByIDs(m, u)); }
-  std::string dumpByProd(uint16_t m, uint16_t p, uint8_t a) const { return dump(LocalFindDeviceByProduct(m, p, a)); }
 };
 static MockN2k *N = nullptr;
 static DL *L = nullptr;
@@ -135,6 +136,8 @@ static void refMessage(unsigned long pgn, int src, const std::vector<unsigned ch
 }
 
 static std::string cstr(const char *s) { return s ? std::string(s) : std::string(); }
+static void checkCount();
+static void checkGetters(const tNMEA2000::tDevice *d);
 
 static void checkAll() {
   // (1) at most one entry per non-zero NAME; entry found under a source reports that source
@@ -142,10 +145,12 @@ static void checkAll() {
   for (int a = 0; a < 254; a++) {
     const tNMEA2000::tDevice *d = L->FindDeviceBySource(a);
     if (!d) continue;
+    checkGetters(d);
     if (d->GetSource() != a) C.fail("C18:source-field:after-" + kind, "entry found under source %d reports source %d", a, d->GetSource());
     uint64_t n = d->GetName();
     if (n) { if (seen.count(n)) C.fail("C18:duplicate-name:after-" + kind, "NAME %016llx at sources %d and %d", (unsigned long long)n, seen[n], a); seen[n] = a; }
   }
+  checkCount();
   // (2) lookups of every NAME whose latest claim is undisplaced, (3) its information
   for (auto &kv : byName) {
     uint64_t n = kv.first; int s = kv.second;
@@ -293,6 +298,46 @@ static void doReset(bool canSend, uint64_t now) {
   C.cases++;
 }
 
+// ---- oracle for the remaining lookups, from the header documentation and the NAME bit layout (ISO 11783-5: unique number =
+// bits 0..20, manufacturer code = bits 21..31), evaluated over the entries the public FindDeviceBySource enumerates
+static unsigned nameMan(uint64_t n) { return (unsigned)((n >> 21) & 0x7ff); }
+static unsigned long nameUnique(uint64_t n) { return (unsigned long)(n & 0x1fffff); }
+static void checkCount() {
+  unsigned n = 0; for (int a = 0; a < 254; a++) if (L->FindDeviceBySource(a)) n++;
+  if (L->FindDeviceBySource(254) || L->FindDeviceBySource(255)) C.fail("C18:bysource-range", "entry reported for source 254/255");
+  if (L->Count() != n) C.fail("C18:count", "Count()=%u but %u sources have an entry", L->Count(), n);
+}
+static void checkGetters(const tNMEA2000::tDevice *d) {   // the NAME-derived getters agree with the NAME
+  if (!d) return;
+  if (d->GetManufacturerCode() != nameMan(d->GetName()) || d->GetUniqueNumber() != nameUnique(d->GetName()))
+    C.fail("C18:name-fields", "NAME %016llx: manufacturer code %u unique number %lu", (unsigned long long)d->GetName(), (unsigned)d->GetManufacturerCode(), (unsigned long)d->GetUniqueNumber());
+}
+// FindDeviceByIDs: "Return device by manufacturer identification"; N/A (0xffff / 0xffffffff) is a wildcard, both N/A finds nothing;
+// the first matching entry in source order
+static void checkByIDs(uint16_t mc, uint32_t un, const tNMEA2000::tDevice *got) {
+  checkGetters(got);
+  const tNMEA2000::tDevice *want = nullptr;
+  if (!(mc == 0xffff && un == 0xffffffffUL))
+    for (int a = 0; a < 254 && !want; a++) { const tNMEA2000::tDevice *d = L->FindDeviceBySource(a);
+      if (d && (mc == 0xffff || nameMan(d->GetName()) == mc) && (un == 0xffffffffUL || nameUnique(d->GetName()) == un)) want = d; }
+  if (got != want) C.fail(std::string("C18:byids:") + (got ? (want ? "wrong-entry" : "spurious") : "missed"), "FindDeviceByIDs(%u,%lu) returned source %d, expected source %d", mc, (unsigned long)un,
+                          got ? got->GetSource() : -1, want ? want->GetSource() : -1);
+}
+// FindDeviceByProduct: "Search with source = 0xff finds first device. To find all devices with given manufacturer product code, repeat
+// search with found device source until device will not be found": the first matching entry BEHIND `a` (a = 0xff: from the start).
+// Start values that are neither 0xff nor at or below the highest occupied source are not described by the header: no requirement.
+static void checkByProduct(uint16_t mc, uint16_t pc, uint8_t a, const tNMEA2000::tDevice *got) {
+  checkGetters(got);
+  int top = -1; for (int i = 0; i < 254; i++) if (L->FindDeviceBySource(i)) top = i;
+  if (a != 0xff && (int)a > top) { C.count("byprod-start-undocumented"); return; }
+  const tNMEA2000::tDevice *want = nullptr;
+  if (mc != 0xffff && pc != 0xffff)
+    for (int i = (a == 0xff ? 0 : a + 1); i < 254 && !want; i++) { const tNMEA2000::tDevice *d = L->FindDeviceBySource(i);
+      if (d && nameMan(d->GetName()) == mc && d->GetProductCode() == pc) want = d; }
+  if (got != want) C.fail(std::string("C18:byproduct:") + (got ? (want ? "wrong-entry" : "spurious") : "missed"), "FindDeviceByProduct(%u,%u,%u) returned source %d, expected source %d", mc, pc, a,
+                          got ? got->GetSource() : -1, want ? want->GetSource() : -1);
+}
+
 static uint64_t hex64(const std::string &s) { return strtoull(s.c_str(), nullptr, 16); }
 
 static void exec(const std::string &line) {
@@ -306,12 +351,12 @@ static void exec(const std::string &line) {
   kind = w[0]; g_line = line.c_str();
   C.op("%s", line.c_str());
   if (w[0] == "t" && w.size() == 2) { g_now += strtoull(w[1].c_str(), nullptr, 10); C.out("ok"); }
-  else if (w[0] == "bysrc" && w.size() == 2) C.outs(L->dumpBySrc((uint8_t)atoi(w[1].c_str())));
-  else if (w[0] == "byname" && w.size() == 2) C.outs(L->dumpByName(hex64(w[1])));
-  else if (w[0] == "byids" && w.size() == 3) C.outs(L->dumpByIDs((uint16_t)atoi(w[1].c_str()), (uint32_t)strtoul(w[2].c_str(), nullptr, 10)));
-  else if (w[0] == "byprod" && w.size() == 4) C.outs(L->dumpByProd((uint16_t)atoi(w[1].c_str()), (uint16_t)atoi(w[2].c_str()), (uint8_t)atoi(w[3].c_str())));
+  else if (w[0] == "bysrc" && w.size() == 2) C.outs(L->dump(L->FindDeviceBySource((uint8_t)atoi(w[1].c_str()))));
+  else if (w[0] == "byname" && w.size() == 2) C.outs(L->dump(L->FindDeviceByName(hex64(w[1]))));
+  else if (w[0] == "byids" && w.size() == 3) { uint16_t mc = (uint16_t)atoi(w[1].c_str()); uint32_t un = (uint32_t)strtoul(w[2].c_str(), nullptr, 10); const tNMEA2000::tDevice *d = L->FindDeviceByIDs(mc, un); C.outs(L->dump(d)); checkByIDs(mc, un, d); }
+  else if (w[0] == "byprod" && w.size() == 4) { uint16_t mc = (uint16_t)atoi(w[1].c_str()), pc = (uint16_t)atoi(w[2].c_str()); uint8_t a = (uint8_t)atoi(w[3].c_str()); const tNMEA2000::tDevice *d = L->FindDeviceByProduct(mc, pc, a); C.outs(L->dump(d)); checkByProduct(mc, pc, a, d); }
   else if (w[0] == "last" && w.size() == 2) C.out("%lu", L->GetDeviceLastMessageTime((uint8_t)atoi(w[1].c_str())));
-  else if (w[0] == "count" && w.size() == 1) C.out("%u", L->Count());
+  else if (w[0] == "count" && w.size() == 1) { C.out("%u", L->Count()); checkCount(); }
   else if (w[0] == "upd" && w.size() == 1) C.out("%d", L->ReadResetIsListUpdated() ? 1 : 0);
   else C.out("bad-op");
   C.count("query:" + w[0]);
@@ -406,8 +451,15 @@ struct Gen {
       case 1: exec("byname " + name16(R.pick(names))); break;
       case 2: { uint64_t n = R.pick(names); unsigned man = (unsigned)((n & 0xffffffffULL) >> 21), u = (unsigned)(n & 0x1fffff);
                 int k = (int)R.below(4); exec("byids " + std::to_string(k == 1 ? 0xffffu : man) + " " + std::to_string(k == 2 ? 0xffffffffUL : (k == 3 ? u + 1 : u))); break; }
-      case 3: { uint64_t n = R.pick(names); unsigned man = (unsigned)((n & 0xffffffffULL) >> 21);
-                exec("byprod " + std::to_string(R.chance(1, 6) ? 0xffffu : man) + " " + std::to_string(R.chance(1, 3) ? 0xffff : R.below(60000)) + " " + std::to_string(R.chance(1, 2) ? 255 : R.pick(srcs))); break; }
+      case 3: { uint64_t n = R.pick(names); unsigned man = R.chance(1, 8) ? 0xffffu : (unsigned)((n & 0xffffffffULL) >> 21);
+                unsigned code = R.chance(1, 8) ? 0xffffu : (!prodPool.empty() && R.chance(3, 4) ? (unsigned)(R.pick(prodPool)[2] | R.pick(prodPool)[3] << 8) : (unsigned)R.below(60000));
+                if (!prodPool.empty() && R.chance(1, 2)) { const std::vector<unsigned char> &pp = R.pick(prodPool); code = pp[2] | pp[3] << 8; }
+                int start = R.chance(1, 2) ? 255 : (R.chance(1, 4) ? (int)R.below(256) : R.pick(srcs));
+                exec("byprod " + std::to_string(man) + " " + std::to_string(code) + " " + std::to_string(start));
+                // the documented idiom: repeat the search with the found device's source until nothing is found
+                for (int guard = 0; guard < 6; guard++) { const tNMEA2000::tDevice *d = L->FindDeviceByProduct((uint16_t)man, (uint16_t)code, (uint8_t)start); if (!d) break;
+                  start = d->GetSource(); exec("byprod " + std::to_string(man) + " " + std::to_string(code) + " " + std::to_string(start)); }
+                break; }
       case 4: exec("count"); break;
       case 5: exec("last " + std::to_string(R.pick(srcs))); break;
       default: exec("bysrc " + std::to_string(R.pick(srcs))); break;
@@ -465,6 +517,8 @@ static void fullTableCase(Rng &R) {
   uint64_t base = (R.next() & 0x00ffffffffffff00ULL) | 0x0100000000000000ULL;
   for (int a = 0; a < 254; a++) { if (R.chance(1, 5)) exec("data " + std::to_string(a) + " 127250"); exec("claim " + std::to_string(a) + " " + name16(base + a)); }
   exec("count"); exec("upd");
+  for (int i = 0; i < 6; i++) { uint64_t n = base + R.below(254); exec("byids " + std::to_string((unsigned)((n & 0xffffffffULL) >> 21)) + " " + std::to_string((unsigned long)(n & 0x1fffff)));
+                                exec("byids 65535 " + std::to_string((unsigned long)(n & 0x1fffff))); exec("byprod " + std::to_string((unsigned)((n & 0xffffffffULL) >> 21)) + " 0 " + std::to_string(R.below(256))); }
   for (int i = 0; i < 12; i++) {
     int a = (int)R.below(254);
     exec("claim " + std::to_string(a) + " " + name16(R.chance(1, 2) ? base + 1000 + i : base + R.below(254)));
@@ -513,7 +567,10 @@ static void prodStory(Rng &R, int move, int first) {
   bool na = R.chance(1, 4);
   ProdFields Pf = prodFields(R, na);
   std::vector<unsigned char> P = prodBytes(Pf), F = prodBytes(firstAfter(R, Pf, first)), Q = prodBytes(prodFields(R, false));
-  auto look = [&](int s) { exec("bysrc " + std::to_string(s)); exec("byname " + name16(A)); exec("upd"); };
+  unsigned manA = (unsigned)((A & 0xffffffffULL) >> 21); unsigned long unA = (unsigned long)(A & 0x1fffff);
+  auto look = [&](int s) { exec("bysrc " + std::to_string(s)); exec("byname " + name16(A)); exec("upd");
+                           if (R.chance(1, 3)) exec("byids " + std::to_string(R.chance(1, 4) ? 0xffffu : manA) + " " + std::to_string(R.chance(1, 4) ? 0xffffffffUL : unA));
+                           if (R.chance(1, 3)) exec("byprod " + std::to_string(manA) + " " + std::to_string(R.chance(1, 2) ? Pf.code : Pf.code + 1) + " " + std::to_string(R.chance(1, 2) ? 255 : s1)); };
   if (R.chance(1, 3)) { exec("data " + std::to_string(s1) + " 127250"); exec("upd"); }     // reservation first
   exec("claim " + std::to_string(s1) + " " + name16(A)); look(s1);
   exec(msgLineV(126996, s1, P)); look(s1);
@@ -547,7 +604,11 @@ static void exhaustive(int len) {
 
 int main(int argc, char **argv) {
   C.init(argc, argv);
+#ifdef VH_ASAN
   __asan_set_error_report_callback(onAsan);
+#else
+  (void)onAsan;
+#endif
   C.rule = "case = one device list from construction (reset) through a history of delivered messages; non-trivial = every delivered message; "
            "distinct = (input class of the message, entries in the list, NAMEs under requirement, payload size class)";
   if (!C.replay.empty()) { for (auto &l : readLines(C.replay)) exec(l); C.finish(); return 0; }
